@@ -523,7 +523,9 @@ fn replay_earlystop_with(case: &Value, rep: &mut Report, embedding: &str, script
     // The stop rule reads the validation LOSS only.  Same trajectory on a network whose validation ACCURACY rises strictly
     // from epoch to epoch (absolute-error objective, learning rate 1, one-hot inputs with targets 1..K: weight i reaches its
     // target exactly in epoch i and stays): a loss plateau with improving accuracy is still a plateau.
-    if hasval && e >= 2 {
+    // (budgets up to five epochs, plain embedding: the longer trajectories of the thorough tier add nothing to this question and
+    // would triple its running time)
+    if hasval && e >= 2 && e <= 5 && embedding == "plain" {
         let k = e;
         let arch2 = json!({"input": [k], "layers": [{"kind": "dense", "out": 1, "act": "linear", "bias": false}],
                            "objective": {"kind": "ae"}, "optimizer": {"kind": "sgd", "lr": 1.0}});
